@@ -27,7 +27,8 @@ var watchdogTimeout = 40 * time.Second
 var hung = map[string]bool{}
 
 type outcome struct {
-	lines []string
+	lines []string    // requests answered `accept` by the implementation (the Lean driver decides them with its predicates)
+	pairs [][2]string // requests with the implementation's own answer (replayed by the Lean driver on a protocol model)
 	fails []failure
 }
 
@@ -57,6 +58,9 @@ func guarded(r *hx.Run, construct, desc string, body func() outcome) {
 	case o := <-ch:
 		for _, l := range o.lines {
 			r.Line(l, "accept")
+		}
+		for _, l := range o.pairs {
+			r.Line(l[0], l[1])
 		}
 		for _, f := range o.fails {
 			r.Fail(f.oracle, f.detail, f.sig)
